@@ -302,6 +302,10 @@ def run(tier, seed, build):
                        "rattr left alone between the analyses; the reference is the same analysis as the FIRST one of a fresh interpreter",
                        "[interp] 'unrelated code' in a project = a definition no compared function transitively calls under Python's "
                        "scoping, in the target or in a followed import, including one whose name equals a definition of another file",
+                       "[interp] a module-level definition whose NAME equals a name the function binds itself (parameter of any kind, "
+                       "comprehension / for / with / except / walrus / match target, local assignment, nested def / class) is unrelated "
+                       "code for that function: CPython's symtable is the judge of 'binds itself' (the name is not a global of the scope "
+                       "the call is in); the syntactic class of the binder is computed from the AST of the input, never from rattr's answer",
                        "multi-file result generation: own IRs and call resolution are taken from the real run (as in C03); the model is "
                        "Results.generate with roots = the target's functions over the store of ALL files"]
     return res
